@@ -270,7 +270,8 @@ class World:
                 # unit cost for a full loss, nothing for anything else: the package
                 # evaluator's cost of the reconciliation IS its count of full losses
                 "costs": {"SPECIATION": 0, "DUPLICATION": 0, "HORIZONTAL_TRANSFER": 0,
-                          "FULL_LOSS": 1, "SEGMENTAL_LOSS": 0},
+                          "FULL_LOSS": 1.0 if self.case.get("unnamed") else 1,
+                          "SEGMENTAL_LOSS": 0},
             },
             "object_species": {self.name_of(v): self.sname_of(s) for v, s in self.m.items()},
         }
